@@ -20,7 +20,7 @@
 (***************************************************************************)
 EXTENDS Gen, MsgSig, TLC, Json
 
-CONSTANTS Part,     \* "perm" | "perm8" | "fillers" | "vals" | "repeat" | "caps" | "caps8" | "reply" | "chunk" | "probe"
+CONSTANTS Part,     \* "perm" | "perm8" | "fillers" | "vals" | "repeat" | "caps" | "caps8" | "reply" | "chunk" | "probe" | "viabr"
           K,        \* largest number of fingerprinted header lines of a message (slices with arrangements)
           Auto      \* TRUE: also emit the transcription's records
 
@@ -52,15 +52,18 @@ SigVal(i, alt) ==
     [] i = 4 -> IF alt = 0 THEN V_from1    ELSE V_from1b
     [] i = 5 -> IF alt = 0 THEN V_maxfwd   ELSE V_maxfwd2
     [] i = 6 -> IF alt = 0 THEN V_to1      ELSE V_to2
-    [] i = 7 -> IF alt = 0 THEN V_via1     ELSE V_via1b
+    [] i = 7 -> IF alt = 0 THEN V_via4     ELSE V_via4b
     [] i = 8 -> IF alt = 0 THEN V_ua       ELSE V_ua2
+\* slice "viabr": Via values whose FIRST via has no branch parameter (a second via of the same line may have one)
+ViaNoBr(v) == CASE v = 1 -> V_via3 [] v = 2 -> V_via5 [] v = 3 -> V_via7 [] v = 4 -> V_via8
 SigLine(i, form, alt) ==
-  IF alt = 0 THEN GenHdrLine(SigName(i, form), WS0, WS1, SigVal(i, 0), WS0, CRLF)
+  IF alt >= 2 THEN GenHdrLine(SigName(i, form), WS0, WS1, ViaNoBr(alt - 1), WS0, CRLF)
+  ELSE IF alt = 0 THEN GenHdrLine(SigName(i, form), WS0, WS1, SigVal(i, 0), WS0, CRLF)
   ELSE GenHdrLine(SigName(i, form), WS1, WS2, SigVal(i, 1), WS1, CRLF)
 \* a LATER repeat: any value (other Call-ID, other tag, other branch) -- it must not count
 RepVal(i) ==
   CASE i = 1 -> V_callid2 [] i = 2 -> V_contact2 [] i = 3 -> V_cseq4 [] i = 4 -> V_from3
-    [] i = 5 -> V_maxfwd2 [] i = 6 -> V_to2      [] i = 7 -> V_via2  [] i = 8 -> V_ua2
+    [] i = 5 -> V_maxfwd2 [] i = 6 -> V_to2      [] i = 7 -> V_via6  [] i = 8 -> V_ua2
 RepLine(i, form) == GenHdrLine(SigName(i, form), WS0, WS1, RepVal(i), WS0, CRLF)
 \* fillers: headers that are not fingerprinted (1 / 2: same header, value changed)
 NFill == 9
@@ -76,14 +79,15 @@ Filler(f) ==
     [] f = 9 -> GenHdrLine(N_l, WS0, WS1, V_expires2, WS0, CRLF)          \* "l: 0"
 
 \* ------------------------------------------------------------------ choice -> message
-\* x = [m, ord, forms, alts, fil, rep, hcap, cut, lvl]   (lvl 1: a seed, see below; cut: 0 or the chunk boundary)
+\* x = [m, ord, forms, alts, fil, rep, hcap, cut, lvl, viav]   (lvl 1: a seed, see below; cut: 0 or the chunk boundary)
 \*   ord   tuple of distinct indices 1..8: the fingerprinted lines in message order
 \*   forms / alts  bit k-1 = form / alt of the k-th line of ord
 \*   fil   tuple of <<slot, filler>>: slot s = after the s-th line of ord (0 = before the first)
+\*   viav  0, or 1..4: the Via line carries ViaNoBr(viav) (first via without branch)
 \*   rep   <<r, form, slot>>: repeat the type of ord[r] in slot >= r (after the fillers of that slot); r = 0: none
 NoRep == <<0, 0, 0>>
 C(m, ord, forms, alts, fil, rep, hcap) ==
-  [m |-> m, ord |-> ord, forms |-> forms, alts |-> alts, fil |-> fil, rep |-> rep, hcap |-> hcap, cut |-> 0, lvl |-> 2]
+  [m |-> m, ord |-> ord, forms |-> forms, alts |-> alts, fil |-> fil, rep |-> rep, hcap |-> hcap, cut |-> 0, lvl |-> 2, viav |-> 0]
 Bit(mask, k) == (mask \div Pow2(k - 1)) % 2
 
 RECURSIVE FilAt(_, _, _)
@@ -92,14 +96,14 @@ FilAt(fil, s, j) == IF j > Len(fil) THEN <<>>
 RepAt(x, s) == IF x.rep[1] # 0 /\ x.rep[3] = s THEN <<RepLine(x.ord[x.rep[1]], x.rep[2])>> ELSE <<>>
 RECURSIVE Build(_, _)
 Build(x, s) == IF s > Len(x.ord) THEN <<>>
-               ELSE (IF s >= 1 THEN <<SigLine(x.ord[s], Bit(x.forms, s), Bit(x.alts, s))>> ELSE <<>>)
+               ELSE (IF s >= 1 THEN <<SigLine(x.ord[s], Bit(x.forms, s), IF x.viav # 0 /\ x.ord[s] = 7 THEN 1 + x.viav ELSE Bit(x.alts, s))>> ELSE <<>>)
                     \o FilAt(x.fil, s, 1) \o RepAt(x, s) \o Build(x, s + 1)
 Lines(x) == Build(x, 0)
 Text(x, lines)  == FLine(x.m) \o CRLF \o CatTxt(lines, 1) \o CRLF
 Ghost(lines)    == SubSeq([k \in 1..Len(lines) |-> [type |-> lines[k].type, nlen |-> lines[k].name[2]]], 1, Len(lines))
 \* the base message of x: same method, order and forms; no fillers, no repeat, base values, everything fits
-Base(x)  == C(x.m, x.ord, x.forms, 0, <<>>, NoRep, 64)
-GrpId(x) == ToString(<<x.m, x.ord, x.forms>>)
+Base(x)  == C(x.m, x.ord, x.forms, 0, <<>>, NoRep, 64)      \* (viav: the Via VALUE differs, the demand on HdrSig does not)
+GrpId(x) == IF x.viav = 0 THEN ToString(<<x.m, x.ord, x.forms>>) ELSE ToString(<<x.m, x.ord, x.forms, "nobranch">>)
 
 \* ------------------------------------------------------------------ choice sets
 \* Two levels, so that TLC's workers share the work (initial states are processed by ONE thread): the initial
@@ -142,7 +146,7 @@ ProbeFils == { <<<<2, 1>>>>, <<<<1, 1>>>>, <<<<0, 1>>>>, <<<<1, 1>>, <<2, 3>>>>,
 
 Seeds(part, kk) ==
   CASE part = "perm"    -> { Seed(m, o, 0, NoRep) : m \in 1..NReq, o \in Ords(1..8, 1, kk) }
-    [] part = "perm8"   -> { Seed(m, o, 0, NoRep) : m \in {1, 2}, o \in Arr(1..8, 3) }
+    [] part = "perm8"   -> { Seed(kk, o, 0, NoRep) : o \in Arr(1..8, 3) }        \* K = the method: 1 INVITE, 2 REGISTER
     [] part = "fillers" -> { Seed(m, o, 0, NoRep) : m \in {1, 2}, o \in Ords(SFew, 1, kk) }
     [] part = "vals"    -> { Seed(m, o, 0, NoRep) : m \in 1..NReq, o \in Ords(1..8, 1, kk) }
     [] part = "repeat"  -> { Seed(m, o, 0, NoRep) : m \in {1, 2, 3}, o \in Ords(1..8, 1, kk) }
@@ -151,12 +155,14 @@ Seeds(part, kk) ==
     [] part = "reply"   -> { Seed(m, o, 0, NoRep) : m \in Rpls, o \in Ords(1..8, 1, 2) \cup Ord8s }
     [] part = "chunk"   -> UNION { { [y EXCEPT !.lvl = 1, !.cut = b] : b \in 0..((Len(Text(y, Lines(y))) - 2) \div ChunkBlk) } : y \in ChunkMsgs }
     [] part = "probe"   -> { Seed(m, o, 0, NoRep) : m \in {1, 2}, o \in {<<1, 4>>, <<1, 2>>, <<2, 1>>, <<2>>, <<7, 1>>, <<1, 7>>} }
+    [] part = "viabr"   -> { Seed(m, o, 0, NoRep) : m \in {1, 2}, o \in {<<1, 4, 7>>, <<7, 1>>, <<7>>} }
 
 \* the messages of a seed s
 Expand(part, s) ==
   LET m == s.m  o == s.ord  k == Len(s.ord) IN
   CASE part = "perm"    -> \* every arrangement of 1..K of the 8 lines, every long/compact pattern, the four methods
-                           { C(m, o, f, 0, <<>>, NoRep, 64) : f \in 0..All(k) }
+                           \* (k = 4: INVITE and REGISTER only)
+                           { C(m, o, f, 0, <<>>, NoRep, 64) : f \in { g \in 0..All(k) : k < 4 \/ m <= 2 } }
     [] part = "perm8"   -> \* every permutation of all 8 lines, alternating forms, INVITE and REGISTER
                            { C(m, o \o p, IF m = 1 THEN 85 ELSE 170, 0, <<>>, NoRep, 64) : p \in Arr((1..8) \ Elems(o), 5) }
     [] part = "fillers" -> \* fewer orders x 0..2 fillers in every slot (two fillers: X-Foo / X-Foo changed / Subject / Route)
@@ -176,6 +182,9 @@ Expand(part, s) ==
                            { C(m, o, f, 0, fl, NoRep, h) : f \in {0, All(k)}, fl \in Fil0 \cup Fil1(k, {1}), h \in {-1, 0, 1, 64} }
     [] part = "chunk"   -> LET y == [s EXCEPT !.lvl = 2, !.cut = 0]  n == Len(Text(y, Lines(y))) IN
                            { [y EXCEPT !.cut = ct] : ct \in { q \in (s.cut * ChunkBlk + 1)..((s.cut + 1) * ChunkBlk) : q <= n - 1 } }
+    [] part = "viabr"   -> \* KNOWN FINDING (see the end of this file): the first via has no branch in all of these
+                           { [C(m, o, f, 0, <<>>, r, 64) EXCEPT !.viav = v] : f \in {0, All(k)}, v \in 1..4,
+                                                                             r \in {NoRep, <<CHOOSE j \in 1..k : o[j] = 7, 0, k>>} }
     [] part = "probe"   -> { C(m, o, 0, 0, fl, NoRep, h) : fl \in { q \in ProbeFils : \A j \in 1..Len(q) : q[j][1] <= k },
                                                            h \in {-1, 0, 1, 2, 3, 4, 64} }
 
@@ -212,7 +221,9 @@ DeclRec(x, lines) ==
            src |-> "decl", prop |-> "C19"]
      ELSE IF d.fits THEN
           [fn |-> "GetMsgSig", args |-> Args(text, x.hcap),
-           res |-> [perr |-> OK, Method |-> d.Method, HdrSig |-> d.HdrSig, HdrSigLen |-> d.HdrSigLen, err |-> OK],
+           res |-> IF x.viav = 0 THEN [perr |-> OK, Method |-> d.Method, HdrSig |-> d.HdrSig, HdrSigLen |-> d.HdrSigLen, err |-> OK]
+                   \* no branch in the first via: no characters to classify
+                   ELSE [perr |-> OK, Method |-> d.Method, HdrSig |-> d.HdrSig, HdrSigLen |-> d.HdrSigLen, err |-> OK, ViaBSig |-> 0],
            src |-> "decl", prop |-> "C19",
            grp |-> GrpId(x), strhdr |-> StrHdrPart(d.Method, d.HdrSig), cuts |-> cuts]
      ELSE [fn |-> "GetMsgSig", args |-> Args(text, x.hcap), res |-> [perr |-> OK],
@@ -230,4 +241,9 @@ AutoRec(x, lines) ==
 Emit == IsMsg => LET lines == Lines(c) IN
           /\ PrintT(ToJson(DeclRec(c, lines)))
           /\ (Auto => PrintT(ToJson(AutoRec(c, lines))))
+\* FINDING (slice "viabr", MC_GenSig_viabr.cfg, expected decl_mismatch = 24 of 96): GetViaBrSig looks for the first
+\* ';' of the whole Via header VALUE.  When the first via has no parameter at all and a second via of the same
+\* header line has a branch ("Via: SIP/2.0/UDP h, SIP/2.0/UDP g;branch=z9hG4bK-a.b_c") the SECOND via's branch
+\* is fingerprinted (ViaBSig 0x0850), while the same two vias in two header lines, or "h;rport, g;branch=..",
+\* give ViaBSig 0: the signature depends on something other than the first-Via branch.
 =============================================================================
